@@ -193,6 +193,18 @@ def execute(plan):
             "workload": kind, "table": plan["table"], "failing_clause": f"{first[0]}/{first[1]}",
             "failing_data": {k: (str(x)[:200]) for k, x in (first[2] or {}).items()} if isinstance(first[2], dict) else str(first[2])[:300],
             "n": len(test_bad)}])
+    if not ctrl_bad and rt["status"] == "ok" and rc["status"] == "ok":
+        # what the applications saw: an error class that only shows up under the restricted
+        # version table, or nothing delivered at all where the control delivered
+        extra = sorted(set(rt.get("app_errors") or []) - set(rc.get("app_errors") or []))
+        extra = [e for e in extra if e.startswith("poller_died") or e in (
+            "NotImplementedError", "UnsupportedVersionError", "IncompatibleBrokerVersion", "KafkaError")]
+        if extra:
+            vio.append(["C11", "application_error_only_under_version_range", {
+                "workload": kind, "table": plan["table"], "errors": extra}])
+        if (rc.get("ndelivered") or 0) > 0 and rt.get("ndelivered") == 0:
+            vio.append(["C11", "nothing_delivered_under_version_range", {
+                "workload": kind, "table": plan["table"], "control_delivered": rc.get("ndelivered")}])
     if rt["status"] not in ("ok", "spin") and not ctrl_bad:
         res["status"] = "ok"  # reported as a violation above, not as a harness problem
     elif rc["status"] not in ("ok", "spin"):
